@@ -168,7 +168,7 @@ def era_chains():
         for k, (so, ru) in enumerate(eras):
             body = _era_line(so, ru, k) + ('\t%s' % untils[k] if k < len(untils) else '')
             lines.append(('Zone\t%s\t' % z if k == 0 else '\t\t\t') + body)
-        sig = '>'.join(ru for _, ru in eras)
+        sig = '>'.join(ru for _, ru in eras) + ('@' + untils[0].split(' ', 1)[1].replace(' ', '_') if fam == 'chain2t' else '')
         desc = '%s %s until %s' % (' '.join(so for so, _ in eras), sig, ','.join(untils))
         out.append((fam, sig, desc, '\n'.join(lines), z))
     for a, b in (('9:30', '9:30'), ('9:30', '10:30'), ('10:30', '9:30'), ('-3:30', '-4:30'), ('-4:30', '-3:30'), ('-11:00', '13:00')):
